@@ -1374,6 +1374,16 @@ class TrigInfo:
                     last_trig_time = time.monotonic()
 
         except asyncio.CancelledError:
+            # stop() may have run before this task subscribed (it then found nothing to remove)
+            if self.task is None:
+                if self.state_trig_ident:
+                    State.notify_del(self.state_trig_ident, self.notify_q)
+                if self.event_trigger is not None:
+                    Event.notify_del(self.event_trigger[0], self.notify_q)
+                if self.mqtt_trigger is not None:
+                    Mqtt.notify_del(self.mqtt_trigger[0], self.notify_q)
+                if self.webhook_trigger is not None:
+                    Webhook.notify_del(self.webhook_trigger[0], self.notify_q)
             raise
 
         except Exception as exc:
